@@ -26,6 +26,12 @@ def run(ctx):
     formatrules.form_selection(ctx)
     formatrules.delta_addressing(ctx)
     formatrules.header_footer(ctx)
+    # the footer's first word is the NUMBER OF KEYS: the accounting of that counter is R01.2
+    import rules.C01 as C01
+    from rules.common import Anchors as _A
+    a01 = _A(ctx.lib)
+    if not a01.err:
+        C01.r01_2(ctx, a01)
     # the checksum clause of the format ("trailing word = masked CRC-32C of ALL preceding bytes") is the coverage rule of C08
     import rules.C08 as C08
     from rules.common import Anchors
